@@ -23,7 +23,7 @@ CHECKS = {
             "pyserial replaced by a fake backend; analog_write arguments finite; first-sample-pressed button edge accepted either way.",
             "DESIGN.md 3/C20"),
     "C12": ("fault_enumeration",
-            "exhaustive enumeration of configuration x single-fault points plus Hypothesis-drawn double faults, against a reference model of target() written from the statement, under a recording harness",
+            "exhaustive enumeration of configuration x single-fault points and of every cross-platform (platform, board) pair, plus Hypothesis-drawn double faults, against a reference model of target() written from the statement, under a recording harness",
             "All combinations of script x (platform, board) class (incl. board ids that are not identifiers) x upload x PlatformIO state x fault point x tool exit status (1, 2, 127, 255, -2, -9, -15, cannot start) are executed against the real target() with subprocess/tempfile/__main__/pathlib replaced by recording fakes that honour check= like subprocess; the reference model decides the expected exception, the recorded tool invocations (order, cwd), the written files (main.cpp bytes, platformio.ini read back with configparser) and the absence of effects.",
             "pio itself is never executed; file-system access is assumed to go through pathlib/tempfile (faults that are never reached are counted, not judged).",
             "DESIGN.md 3/C12"),
@@ -38,7 +38,7 @@ CHECKS = {
             "Mock core + host g++ stand in for avr-g++/Arduino core (32-bit int, %.9g floats); float cases restricted to float32-exact intermediates.",
             "DESIGN.md 3/C01"),
     "C02": ("translation_validation",
-            "differential testing of generated type-flow scenarios (joins, hoisting, returns, parameters, lists, String promotion) against CPython, plus a static declared-type-vs-observed-type rule",
+            "differential testing of generated type-flow scenarios (joins, hoisting, returns, parameters, lists, String promotion) against CPython, plus two static rules: declared type vs observed type, and helper-local names (from Python's symtable) declared inside the helper's C++ body",
             "Scripts are composed from type-flow scenarios with generated values and tape-controlled branches; every value is printed after every assignment and compared with CPython's run, and the C++ declaration of each user name must be able to hold every Python type the reference run observed in it.",
             "Same trusted base as C01; scenario classes of open findings are off by construction and covered by their witnesses.",
             "DESIGN.md 3/C02"),
@@ -73,12 +73,12 @@ CHECKS = {
             "Host ASan heap and the mock String stand in for the AVR heap; aliasing, parameter mutation and in-loop allocation are recorded findings excluded by construction.",
             "DESIGN.md 3/C09"),
     "C10": ("exploration",
-            "generated 'promotion' scripts transpiled in fresh interpreters under 12 PYTHONHASHSEED values (digest agreement) and in generated in-process histories (agreement with the fresh-process bytes, parse-twice IR equality, deep snapshot of module-level state)",
+            "generated 'promotion' scripts transpiled under 12 PYTHONHASHSEED values, one forked child per script (digest agreement) and in generated in-process histories (agreement with the fresh-process bytes, parse-twice IR equality, deep snapshot of module-level state)",
             "The harness owns the hash seed: each pool of generated scripts (names hoisted out of if/elif/else/while/for/try in random order, several buttons, animated LCDs, ultrasonic sensors, helpers with several signatures) is transpiled by fresh interpreters under 12 hash seeds and inside generated histories of 2-12 transpilations; all outputs for a script must be byte-identical and module-level containers unchanged.",
             "Other CPython versions/platforms are represented only by hash-seed variation.",
             "DESIGN.md 3/C10"),
     "C11": ("exploration",
-            "fuzzing in supervised child processes: hostile-expression templates with canaries, token/line-mutated valid Python, random text/bytes and a coverage-guided atheris campaign; oracle = audit hook + canaries + exception-type rule + per-case CPU budget + module-state fingerprint",
+            "fuzzing in supervised child processes: hostile-expression templates with canaries (also inside string literals and import lines), amplification histories, deep nesting under a lowered recursion limit, token/line-mutated valid Python, random text/bytes and a coverage-guided atheris campaign; oracle = audit hook + canaries + exception-type rule + per-case CPU budget + module-state fingerprint",
             "Every input is transpiled inside a forked child with sys.addaudithook armed around parse/emit (any exec/import/open/os/subprocess/socket event is a violation), canary files that only exist if user expressions were evaluated, the rule 'ValueError, or SyntaxError only when ast.parse rejects the text', a soft RLIMIT_CPU advanced by 10 s per case (the kernel ends a worker stuck in big-int arithmetic) and a fingerprint of module-level containers.",
             "compile audit events from ast.parse are not judged; atheris part is skipped (counted) if the wheel cannot be installed.",
             "DESIGN.md 3/C11"),
@@ -88,7 +88,7 @@ CHECKS = {
             "Mock core observes commands, not electrical behaviour; RGB fade ties and sub-PWM-resolution motor speeds are recorded findings excluded by construction.",
             "DESIGN.md 3/C04"),
     "C15": ("exploration",
-            "generated input sketches compiled once and run against many generated tapes (button levels, ADC values, echo durations with timeout runs, clock jitter); reference models written from the statement evaluated on the firmware trace; host Button class as a second oracle for click counts",
+            "generated input sketches compiled once and run against many generated tapes (button levels, ADC values, echo durations with timeout runs, clock jitter, starts shortly before the 32-bit millis() wrap on a build with 32-bit unsigned long); reference models written from the statement evaluated on the firmware trace; host Button class as a second oracle for click counts",
             "For every (sketch, tape) pair the trace must show one digitalRead per button per pass plus the initial sample, on_click markers exactly at released->pressed transitions of the sampled signal, every is_pressed() equal to the pass's sample, click counts equal to the host Button's, one analogRead per pot.read() with that value, and for ultrasonic calls the distance formula, <=3 attempts, the last-good/400 fallback and >=60 ms between triggers.",
             "Virtual clock owned by the harness; millis() rollover cannot be observed on a 64-bit host; loop-declared buttons are a recorded finding.",
             "DESIGN.md 3/C15"),
@@ -103,7 +103,7 @@ CHECKS = {
             "Printable ASCII texts only; in-range row/col; mock models the visible window only.",
             "DESIGN.md 3/C17"),
     "C18": ("exploration",
-            "generated animation sketches run for 3*bound+6 passes under generated per-pass clock increments (harness-owned virtual clock) with trace invariants; generated animate/tick(now) histories on the host LCD with the same invariants after every call",
+            "generated animation sketches run for 3*bound+6 passes under generated per-pass clock increments (harness-owned virtual clock, incl. the 32-bit millis() wrap) with trace invariants; generated animate/tick(now) histories on the host LCD with the same invariants after every call",
             "Device: no delay from animate or ticks, all display traffic before the first user statement of each pass, frames confined to their row and clearing exactly cols cells, at most one step per pass, non-looping animations silent after a linear number of frames, looping ones still stepping in the last third of the run, steps >= speed_ms apart once millis() > 0. Host: tick never raises for non-decreasing positive timestamps, rows keep their length, only animated rows change, the same termination / looping / rate rules.",
             "Liveness is bounded termination with bound 2*(len+cols)+4; animations started inside the main loop are a recorded finding.",
             "DESIGN.md 3/C18"),
